@@ -261,6 +261,11 @@ func parsePrimaryExpression(tokens []string) (*ExprNode, []string, error) {
 		}, remaining[1:], nil
 	}
 
+	// Handle CASE expression used as an operand, e.g. (CASE ... END) * 2 or abs(CASE ... END)
+	if strings.ToUpper(token) == "CASE" {
+		return parseCaseExpression(tokens)
+	}
+
 	// Handle numbers
 	if isNumber(token) {
 		return &ExprNode{
